@@ -140,6 +140,10 @@ func (r Record) Position(p int) int64 {
 }
 
 func (r Record) position(p int) int64 {
+	if r.BasesPerLine == 0 {
+		// Only an empty sequence has no bases per line.
+		return r.Start
+	}
 	return r.Start + int64(p/r.BasesPerLine*r.BytesPerLine+p%r.BasesPerLine)
 }
 
